@@ -29,6 +29,7 @@ from c19_util import (STOCK, U, U32, exact_sqrt, fr, frl, gen_gae, gen_goe, is_f
 from es_spies import make_spy_archive, make_spy_es, make_spy_generator, make_spy_grad, make_spy_ranker
 
 CONFIG = {
+    "source_ties": "Since round 7 also tied statically: harness/py2v_dqd.py translates the arithmetic and the phase order of GradientArborescenceEmitter.{tell_dqd, ask, tell} on every run; Refine/DqdRefine.v proves them equal to normalise / branch / the gradient step / the skip-empty guard of Model/DQD.v and to the order of gae_tell's action log.",
     "cone": ["Base/ListUtil.v", "Base/QVec.v", "Model/Store.v", "Model/ESControl.v", "Spec/ESControlSpec.v", "Proofs/ESControlProofs.v",
              "Model/DQD.v", "Proofs/DQDProofs.v", "Generated/ESGen.v", "Refine/ESRefine.v", "Properties/C19.v",
              "Model/DqdPhases.v", "Generated/DqdGen.v", "Refine/DqdRefine.v"],
